@@ -628,6 +628,12 @@ impl IteratorRecord {
                 }
             }
             Err(inner_result) => {
+                // NOTE: An engine error (e.g. an exceeded runtime limit) is never replaced by
+                // the catchable completion it interrupted.
+                if !inner_result.is_catchable() {
+                    return Err(inner_result);
+                }
+
                 // 5. If completion.[[Type]] is throw, return ? completion.
                 completion?;
 
@@ -635,6 +641,14 @@ impl IteratorRecord {
                 return Err(inner_result);
             }
         };
+
+        // NOTE: An engine error (e.g. an exceeded runtime limit) raised by `return` is never
+        // replaced by the catchable completion it interrupted.
+        if let Err(err) = &inner_result
+            && !err.is_catchable()
+        {
+            return inner_result;
+        }
 
         // 5. If completion.[[Type]] is throw, return ? completion.
         let completion = completion?;
